@@ -85,6 +85,22 @@ CLAIMS["C10"] = {
             "The guarded-field table and the exception table are part of the trusted base. " + _TB,
 }
 
+CLAIMS["C09"] = {
+    "text": "Decides the structural liveness clauses of C09: every function returns with the lock state it was entered "
+            "with in every reachable lock context (all exits, incl. error paths); no lock class is re-acquired while "
+            "held; the lock-order graph over classes is acyclic and equals the confirmed set of edges; every cond_wait "
+            "sits in a loop that re-tests a shared predicate with its mutex held, and a loop waiting for background "
+            "progress cannot go round without testing the error latch; every enabling store to a waited-for field "
+            "(scheduled flag, imm, bg_error, manual compaction, version install, writer hand-off, pool state) is followed "
+            "by a wake-up on the matching condition before the thread leaves its root (interprocedural); wake-ups on the "
+            "shared background condition are broadcasts; close raises shutting_down before waiting; the background call "
+            "always clears its flag and broadcasts. OS scheduling/starvation and timing are not decided.",
+    "design_ref": "DESIGN.md 5/C09",
+    "technique": "static analysis: interprocedural lock-state dataflow, CFG cycle analysis of wait loops, interprocedural must-signal-after-store automata",
+    "note": "Necessary conditions for absence of deadlock / lost wake-up; the wait table and BROADCAST_ONLY table are frozen from "
+            "reading the code. " + _TB,
+}
+
 _PENDING = ("check not built yet in this revision; the property is listed here so that it is not claimed "
             "without machinery (see DESIGN.md for the planned rules)")
 
